@@ -217,6 +217,12 @@ class TcpConnection(
                 except rfc8323common.CloseConnection as e:
                     self._ctx._dispatch_error(self, e.args[0])
                     self._transport.close()
+                if self._transport.is_closing():
+                    # The message ended the connection (Release or Abort from
+                    # the peer, or an Abort of our own): what follows it in the
+                    # stream is not processed, just as it would not be had it
+                    # arrived in a later segment.
+                    return
                 continue
 
             if self._remote_settings is None:
